@@ -88,6 +88,7 @@ fn main() {
 
     let mut rows: Vec<(String, usize, u8, u64)> = Vec::new();
     let mut not_importable: Vec<String> = Vec::new();
+    let mut ambiguous: Vec<String> = Vec::new(); // accepted with more than one probed signature: the signature is not checked
     for (_, name) in &names {
         let mut accepted: Vec<(usize, u8)> = Vec::new();
         for n in 0..=10usize {
@@ -109,7 +110,7 @@ fn main() {
                     .expect("accepted at latest");
                 rows.push((name.clone(), n, r, minv));
             }
-            _ => panic!("{}: accepted with several signatures {:?} — the table format does not apply", name, accepted),
+            _ => ambiguous.push(name.clone()),
         }
     }
 
@@ -157,6 +158,12 @@ fn main() {
     let _ = writeln!(s, "Definition c45_not_importable : list (list N) := [");
     for (i, name) in not_importable.iter().enumerate() {
         let _ = writeln!(s, "  {}{} (* {} *)", bytes_lit(name), if i + 1 < not_importable.len() { ";" } else { "" }, name);
+    }
+    let _ = writeln!(s, "].");
+    let _ = writeln!(s, "(* names accepted with MORE THAN ONE probed signature (their signature is not enforced): must be empty *)");
+    let _ = writeln!(s, "Definition c45_ambiguous_imports : list (list N) := [");
+    for (i, name) in ambiguous.iter().enumerate() {
+        let _ = writeln!(s, "  {}{} (* {} *)", bytes_lit(name), if i + 1 < ambiguous.len() { ";" } else { "" }, name);
     }
     let _ = writeln!(s, "].");
     std::fs::write(&out, s).expect("write");
